@@ -101,6 +101,15 @@ Definition C05_full_statement : Prop := Deps_examples.full_statement.
 Theorem C05_full_statement_refuted : ~ C05_full_statement.
 Proof. exact Deps_examples.full_statement_refuted. Qed.
 
+(* ---- known finding C05-reflist-flatten-id-read: the hypothesis [read_ok] fails for one access path of
+   the unchanged code.  `RecordSet.reflistcol` (table.py _get_col_obj_subset -> ReferenceList.do_convert)
+   reads `rec.id` through records carrying the bare ReferenceRelation; that relation does not map the read
+   row back to the reader, the composed one (which ordinary field access records) does. *)
+Theorem C05_flatten_edge_refuted :
+  covers Deps_examples.fl_R (RRef 7) 9 1 = false /\
+  covers Deps_examples.fl_R (RComp (RLook 20 2) (RRef 7)) 9 1 = true.
+Proof. exact Deps_examples.flatten_edge_not_covering. Qed.
+
 (* ---- non-vacuity: a document (A data, B = $A + 1), the edit A[1] := 7 through the executable
    invalidate_deps, the evaluation of B[1], and the theorem applied to that run ---------------------- *)
 Example C05_ex_consistent : consistent Deps_examples.noguard Deps_examples.ex_s0.
